@@ -63,6 +63,7 @@ type Config struct {
 	Verbose     bool
 	SolverLog   string
 	Seed        int64
+	NoMerge     bool
 	AltSolver   string // second opinion on final obligations ("" = none)
 	Deadline    time.Time
 }
@@ -86,18 +87,19 @@ type Stats struct {
 }
 
 type Explorer struct {
-	prog   *ssa.Program
-	cfg    Config
-	entry  *ssa.Function
-	hpkg   *ssa.Package
-	mu     sync.Mutex
-	cond   *sync.Cond
-	work   [][]Decision
-	active int
-	stats  Stats
-	res    []*PathResult // violations, panics, unsupported, limits and sampled ok paths
-	okSeen int
-	stop   bool
+	prog        *ssa.Program
+	cfg         Config
+	entry       *ssa.Function
+	hpkg        *ssa.Package
+	mu          sync.Mutex
+	cond        *sync.Cond
+	work        [][]Decision
+	active      int
+	stats       Stats
+	res         []*PathResult // violations, panics, unsupported, limits and sampled ok paths
+	okSeen      int
+	stop        bool
+	forkSites   map[string]int
 }
 
 func NewExplorer(prog *ssa.Program, hpkg *ssa.Package, entry *ssa.Function, cfg Config) *Explorer {
@@ -310,6 +312,9 @@ type Exec struct {
 	deferFrame   []*frame
 	pushed       bool
 	synced       int
+	curModel     Model // a model of the current path condition, or nil
+	spec         []*overlay
+	merges       int
 
 	// environment model
 	clockSec  *Term
@@ -442,6 +447,31 @@ func (e *Exec) addPC(c *Term) {
 		return
 	}
 	e.pc = append(e.pc, c)
+	if e.curModel != nil {
+		if v, ok := e.evalModel(c); !ok || v != 1 {
+			e.curModel = nil
+		}
+	}
+}
+
+// evalModel evaluates t under the cached model (inputs created after the model
+// was fetched are unconstrained and read as 0).  ok=false if t cannot be
+// evaluated (uninterpreted functions).
+func (e *Exec) evalModel(t *Term) (uint64, bool) {
+	if e.curModel == nil {
+		return 0, false
+	}
+	bad := false
+	v := t.Eval(e.curModel, func(string, []uint64) uint64 { bad = true; return 0 })
+	return v, !bad
+}
+
+// fetchModel caches the solver's current model (call right after a Sat answer
+// in a scope whose assertions are exactly the path condition plus extras that
+// are about to be added to it).
+func (e *Exec) fetchModel() {
+	m := e.model()
+	e.curModel = Model(m)
 }
 
 // sync brings the solver up to date with the path condition (lazily: a path
@@ -481,6 +511,9 @@ func (e *Exec) branch(c *Term) bool {
 	if c.IsConst() {
 		return c.c == 1
 	}
+	if len(e.spec) > 0 {
+		panic(specAbort{"symbolic branch inside a speculated region"})
+	}
 	if e.pos < len(e.decisions) {
 		d := e.decisions[e.pos]
 		e.pos++
@@ -494,13 +527,40 @@ func (e *Exec) branch(c *Term) bool {
 		return d.B
 	}
 	e.sync()
-	rt := e.sv.CheckWith(c)
+	notc := e.ts.Not(c)
+	var rt, rf SatResult
+	mv, mok := e.evalModel(c)
+	if mok && mv == 1 {
+		rt = Sat
+		rf = e.sv.CheckWith(notc)
+	} else if mok && mv == 0 {
+		rf = Sat
+		e.sv.Push()
+		e.sv.Assert(c)
+		rt = e.sv.Check()
+		if rt == Sat {
+			e.fetchModel()
+		}
+		e.sv.Pop()
+	} else {
+		e.sv.Push()
+		e.sv.Assert(c)
+		rt = e.sv.Check()
+		if rt == Sat {
+			e.fetchModel()
+		}
+		e.sv.Pop()
+		if rt == Unsat {
+			rf = Sat // the path condition itself is satisfiable
+		} else {
+			rf = e.sv.CheckWith(notc)
+		}
+	}
 	if rt == Unsat {
 		e.decisions = append(e.decisions, Decision{B: false, Forced: true})
 		e.pos++
 		return false
 	}
-	rf := e.sv.CheckWith(e.ts.Not(c))
 	if rf == Unsat {
 		if rt == Unknown {
 			e.inconclusive++
@@ -518,13 +578,30 @@ func (e *Exec) branch(c *Term) bool {
 	e.decisions = append(e.decisions, Decision{B: true})
 	e.pos++
 	e.addPC(c)
+	e.noteFork()
 	return true
+}
+
+func (e *Exec) noteFork() {
+	if !e.x.cfg.Verbose {
+		return
+	}
+	site := e.curFn()
+	e.x.mu.Lock()
+	if e.x.forkSites == nil {
+		e.x.forkSites = map[string]int{}
+	}
+	e.x.forkSites[site]++
+	e.x.mu.Unlock()
 }
 
 // concretize forks over the feasible values of t (at most max of them).
 func (e *Exec) concretize(t *Term, max int, what string) uint64 {
 	if t.IsConst() {
 		return t.c
+	}
+	if len(e.spec) > 0 {
+		panic(specAbort{"concretize inside a speculated region"})
 	}
 	for n := 0; ; n++ {
 		if n > max {
@@ -533,6 +610,8 @@ func (e *Exec) concretize(t *Term, max int, what string) uint64 {
 		var v uint64
 		if e.pos < len(e.decisions) {
 			v = e.decisions[e.pos].V
+		} else if mv, ok := e.evalModel(t); ok {
+			v = mv
 		} else {
 			e.sync()
 			if r := e.sv.Check(); r != Sat {
@@ -542,11 +621,16 @@ func (e *Exec) concretize(t *Term, max int, what string) uint64 {
 				}
 				panic(pathEnd{"assume", "infeasible at concretize"})
 			}
-			vals, err := e.sv.Values([]*Term{t})
-			if err != nil {
-				panic(unsupported("concretize: %v", err))
+			e.fetchModel()
+			if mv, ok := e.evalModel(t); ok {
+				v = mv
+			} else {
+				vals, err := e.sv.Values([]*Term{t})
+				if err != nil {
+					panic(unsupported("concretize: %v", err))
+				}
+				v = vals[0]
 			}
-			v = vals[0]
 		}
 		c := e.ts.Eq(t, e.ts.Const(t.w, v))
 		if e.branchV(c, v) {
